@@ -291,3 +291,46 @@ def virtual_64(O):
 def kani_mask_kernel(O):
     from . import kani_obs
     kani_obs.mask_kernel(O, "C07")
+
+
+def _c07_rep():
+    from . import dri
+    sc = []
+    for bits, n in ((4, 0xabc), (8, 0x1234), (13, -1)):
+        sc += _scenario_input(bits, n)
+    # expected values stay the program's reduced value whatever the driver answers (sign-extended, stray high bits)
+    S = [("in", "A", 1, 0), ("out", "Y", 4), ("out", "W", 8)]
+    sc.append(Scenario("A Y W\n0 (0xF) (0x25)\n1 (0-1) 5\n", S, answers={1: [-1, 0x35], 2: [0x1F, 0x105]}, default_answer=[0, 0],
+                       expect={"row_expected": [["15", "37"], ["15", "5"]], "row_outputs": [["-1", "53"], ["31", "261"]]},
+                       note="driver answers outside the signal's width: expected stays the program's reduced value, output the driver's"))
+    # one header column bound to a bidirectional signal's read-back AND a narrower signal of that very name
+    S2 = [("bidir", "D", 8, "Z"), ("out", "D_out", 4), ("in", "A", 1, 0)]
+    sc.append(Scenario("A D D_out\n0 Z (0xabc)\n", S2, default_answer=[0, 0], expect={"row_expected": [["188", "12"]]},
+                       note="column D_out shared by the 8-bit read-back of D and the 4-bit output D_out: each reduced to its own width"))
+    S3 = [("out", "D_out", 4), ("bidir", "D", 8, "Z"), ("in", "A", 1, 0)]
+    sc.append(Scenario("A D D_out\n0 Z (0xabc)\n", S3, default_answer=[0, 0], expect={"row_expected": [["12", "188"]]},
+                       note="the same with the narrower signal first in the signal list"))
+
+    def judge(obs, sc_):
+        if sc_.expect and ("row_expected" in sc_.expect or "row_outputs" in sc_.expect):
+            return B_.literal_judge(obs, sc_)
+        return _judge_input(0, 0)(obs, sc_)
+    from . import batteries as B_
+    return dri.Rep({"path": "pipeline"}, sc, judge)
+
+
+@obligation("C07/reduced-once-per-signal", profiles=("dev",),
+            desc="get_row runs the interpreter, the X / C expansions, the changed-flag comparison and the two entry generators and "
+                 "no other pass over the evaluated entries: a value is reduced exactly once, by the closure of the signal it is "
+                 "bound to (a column shared by two signals of different widths is reduced per signal)")
+def reduced_once(O):
+    from . import dri
+    dri.get_row_is_the_pipeline(O, _c07_rep())
+
+
+@obligation("C07/expected-value-is-the-programs", profiles=("dev",),
+            desc="EvaluatedRow::into_data_row (<= 3 entries): the expected value of a result entry is the row's expected value as "
+                 "generated (the program's value reduced to the signal's width) - not adjusted to what the driver answered")
+def expected_is_programs(O):
+    from . import C03, dri
+    C03.zip_into_row(dri.WithRep(O, _c07_rep()))
